@@ -24,19 +24,19 @@ Definition g_cas (spurious : bool) (mem : Z -> Z) (fr h raw : Z) : bool * Z * (Z
 Definition g_exchange (mem : Z -> Z) (a v : Z) : Z * (Z -> Z) := (mem a, GenPrelude.upd mem a v).
 Definition g_next (mem : Z -> Z) (p : Z) : Z := mem p.
 
-Lemma destructor_body_is_three_atomic_pieces sp fuel fr raw mem :
-  destroy_loop0 sp (S fuel) fr raw mem =
+Lemma destructor_body_is_three_atomic_pieces sp fuel fr raw mem mo :
+  destroy_loop0 sp (S fuel) fr raw mem mo =
     let h := g_load mem fr in
     let m1 := g_link mem h raw in
     let '(ok, _, m2) := g_cas (sp fuel) m1 fr h raw in
-    if ok then Ok m2 else destroy_loop0 sp fuel fr raw m2.
+    if ok then Ok (m2, Z.min mo 5) else destroy_loop0 sp fuel fr raw m2 (Z.min mo 5).
 Proof. reflexivity. Qed.
 
-Lemma drain_is_exchange_then_walk crew_head fuel mem pool :
-  pvDeallocateFreeRaws crew_head fuel mem pool =
+Lemma drain_is_exchange_then_walk crew_head fuel mem pool mo :
+  pvDeallocateFreeRaws crew_head fuel mem pool mo =
     let '(h, m1) := g_exchange mem crew_head 0 in
     match pvDeallocateFreeRaws_loop0 fuel m1 h pool with
-    | Ok (_, pool') => Ok (tt, m1, pool')
+    | Ok (_, pool') => Ok (tt, m1, pool', Z.min mo 5)
     | Stuck => Stuck | Fuel => Fuel | Exn => Exn
     end.
 Proof. reflexivity. Qed.
